@@ -423,27 +423,43 @@ def do_event(m, hook, st, kind, run_dir):
         hook.after_step(st)
 
 
-def execute(world, runs):
+def execute(world, runs, spelling="abs"):
     """runs = [(events, crash_at or None)], events = [(kind, step, ver)].  Every run is a fresh hook on the same
-    directory.  Returns (run_dir, per-run (completed events, crashed?, trace, count))."""
+    directory.  `spelling` is how the hook is told the run directory: "abs" (absolute), "rel" (relative to the
+    current directory, the way scripts/alpha_zero.py passes --run-dir; cwd is restored afterwards) or "symlink"
+    (absolute, through a symlinked parent).  Returns (real run_dir, per-run info)."""
     m = world.m
     run_dir = world.fresh_dir()
+    spelled, cwd = run_dir, None
+    if spelling == "rel":
+        cwd = os.getcwd()
+        spelled = os.path.basename(run_dir)
+    elif spelling == "symlink":
+        link = os.path.join(world.base, f"via{world.n}")
+        os.symlink(os.path.dirname(run_dir), link)
+        spelled = os.path.join(link, os.path.basename(run_dir))
     out = []
-    for events, crash_at in runs:
-        cfg = types.SimpleNamespace(run_dir=run_dir)
-        hook = m.saving.SavingHook(freq=1)
-        done = 0
-        crashed = False
-        states = [world.state(s, v) for _, s, v in events]
-        with FaultFS(m, run_dir, crash_at) as ff:
-            try:
-                hook.before_run(None, cfg)
-                for (kind, s, v), st in zip(events, states):
-                    do_event(m, hook, st, kind, run_dir)
-                    done += 1
-            except Crash:
-                crashed = True
-        out.append({"done": done, "crashed": crashed, "trace": ff.trace, "count": ff.count})
+    try:
+        if cwd is not None:
+            os.chdir(os.path.dirname(run_dir))
+        for events, crash_at in runs:
+            cfg = types.SimpleNamespace(run_dir=spelled)
+            hook = m.saving.SavingHook(freq=1)
+            done = 0
+            crashed = False
+            states = [world.state(s, v) for _, s, v in events]
+            with FaultFS(m, run_dir, crash_at) as ff:
+                try:
+                    hook.before_run(None, cfg)
+                    for (kind, s, v), st in zip(events, states):
+                        do_event(m, hook, st, kind, spelled)
+                        done += 1
+                except Crash:
+                    crashed = True
+            out.append({"done": done, "crashed": crashed, "trace": ff.trace, "count": ff.count})
+    finally:
+        if cwd is not None:
+            os.chdir(cwd)
     return run_dir, out
 
 
@@ -630,9 +646,9 @@ def crash_cases(run, world, comp_of):
     seen = set()
     t0 = time.time()
 
-    def one(runs, label):
+    def one(runs, label, spelling="abs"):
         """runs = [(events, crash_at)] -> case + oracle"""
-        run_dir, info = execute(world, runs)
+        run_dir, info = execute(world, runs, spelling)
         res, _ = resume_real(world, run_dir)
         try:
             ents = listing(world, run_dir, comp_of)
@@ -648,7 +664,8 @@ def crash_cases(run, world, comp_of):
             out = res[0]
             ld = "None"
         rs = clist([f"({events_coq(ev)}, {k if k is not None else 4000}%nat)" for ev, k in runs])
-        meta = {"label": label, "runs": [{"events": ev, "crash_after_ops": k} for ev, k in runs],
+        meta = {"label": label, "run_dir_spelling": spelling,
+                "runs": [{"events": ev, "crash_after_ops": k} for ev, k in runs],
                 "impl_resume": list(res[:2]), "impl_loaded": {c: res[2][c] for c in res[2]} if res[0] == "Resumed" else None,
                 "impl_listing": ents}
         cs.add(f"({rs}, {out}, {ld}, {clist(ents)})", meta)
@@ -669,7 +686,7 @@ def crash_cases(run, world, comp_of):
             run.violation(key, {"clause": "an interrupted save resumes from a complete snapshot - the previous one or "
                                           "the new one - never from a partial one and never silently from scratch; "
                                           "a completed save loads exactly what it was given",
-                                "history": meta["runs"], "crash_index": k, "operations_done_in_last_run": inf["trace"][-6:],
+                                "history": meta["runs"], "crash_index": k, "run_dir_spelling": spelling, "operations_done_in_last_run": inf["trace"][-6:],
                                 "allowed (step, version)": allowed, "observed": got, "impl_resume": res[:2],
                                 "impl_listing": ents})
         shutil.rmtree(run_dir, ignore_errors=True)
@@ -694,6 +711,19 @@ def crash_cases(run, world, comp_of):
                 seen.add(h)
         if len(samples) < 3:
             samples.append({"history": events, "operations": n_ops})
+    # the same protocol with the run directory spelled as a relative path (cwd = its parent; how alpha_zero.py gets
+    # --run-dir) and through a symlinked parent, each with repeated saves of one step; the model's verdict does not
+    # depend on the spelling
+    spelled = [("rel", "rel-repeat", [("periodic", 1, 1), ("periodic", 2, 1), ("end", 2, 1)]),
+               ("rel", "rel-triple", [("periodic", 3, 1), ("end", 3, 1), ("end", 3, 1)]),
+               ("symlink", "symlink-repeat", [("periodic", 1, 1), ("end", 1, 1), ("periodic", 2, 1), ("end", 2, 1)])]
+    for spelling, label, events in spelled:
+        stats["histories"] += 1
+        run_dir, info = execute(world, [(events, None)], spelling)
+        n_ops = info[0]["count"]
+        shutil.rmtree(run_dir, ignore_errors=True)
+        for k in range(n_ops + 1):
+            one([(events, k if k < n_ops else None)], label, spelling)
     # two processes: the first dies at k1, the second resumes, reaches further steps (re-reaching the interrupted
     # step with OTHER weights = version 2) and is interrupted at every k2
     first = [("periodic", 1, 1), ("periodic", 2, 1)]
@@ -1110,7 +1140,8 @@ def _replay(run, rp):
         if not hist:
             return {"violates": False, "note": "nothing to replay in this file (no history)"}
         runs = [([tuple(e) for e in r["events"]], r["crash_after_ops"]) for r in hist]
-        run_dir, info = execute(world, runs)
+        spelling = rp.get("run_dir_spelling") or (rp.get("input") or {}).get("run_dir_spelling") or "abs"
+        run_dir, info = execute(world, runs, spelling)
         res, _ = resume_real(world, run_dir)
         prev = None
         for (ev, k), inf in zip(runs[:-1], info[:-1]):
@@ -1118,14 +1149,14 @@ def _replay(run, rp):
                 prev = (s, v)
         # for multi-process replays the previous run's outcome is recomputed by resuming after it
         if len(runs) > 1:
-            d2, _ = execute(world, runs[:-1])
+            d2, _ = execute(world, runs[:-1], spelling)
             r1, _ = resume_real(world, d2)
             prev = None
             if r1[0] == "Resumed":
                 vals = set(r1[2].values())
                 prev = vals.pop() if len(vals) == 1 else None
         ok, allowed, got = oracle(prev, runs[-1][0], info[-1]["done"], info[-1]["crashed"], res)
-        return {"violates": not ok, "allowed": allowed, "observed": got, "impl_resume": res[:2],
+        return {"violates": not ok, "allowed": allowed, "observed": got, "impl_resume": res[:2], "run_dir_spelling": spelling,
                 "listing": sorted(os.listdir(run_dir))}
     finally:
         shutil.rmtree(base, ignore_errors=True)
